@@ -1,6 +1,7 @@
 package zv
 
 import (
+	"errors"
 	"fmt"
 	"go/ast"
 	"go/constant"
@@ -89,6 +90,11 @@ func checkC20(c *Ctx) {
 	for v := int64(-128); v <= 127; v++ {
 		rs, err1 := it.Run(strFn, []IVal{IInt(v)})
 		rc, err2 := it.Run(capFn, []IVal{IInt(v)})
+		var ip *IPanic
+		if errors.As(err1, &ip) || errors.As(err2, &ip) {
+			c.Bad("R20.1", "zapcore.Level.String", "no-panic", strFn.Pos(), "Level(%d) has no text form: evaluating String/CapitalString for it ends in a %v (every one of the 256 values must print, the unnamed ones as Level(n))", v, ip)
+			return
+		}
 		if err1 != nil || err2 != nil || len(rs) != 1 || len(rc) != 1 || rs[0].K != ivStr || rc[0].K != ivStr {
 			evalErr = fmt.Sprintf("Level(%d): %v %v %v %v", v, rs, err1, rc, err2)
 			break
@@ -502,6 +508,21 @@ func checkC20(c *Ctx) {
 			}
 		}
 		c.Check(n == 2, "R20.3", dr.String(), "relays-decoder", dr.Pos(), "both content-type arms relay their decoder's (level, error) unchanged")
+		// the level is read from the URL/form only when the request says it is a form
+		for _, cl := range Calls(dr) {
+			if !IsCallTo(cl, ZapPath+".decodePutURL") {
+				continue
+			}
+			var atoms []string
+			Bound(func() { atoms = AtomStrings(Guards(cl)) })
+			form := false
+			for _, a := range atoms {
+				if strings.HasSuffix(a, ` == "application/x-www-form-urlencoded"`) {
+					form = true
+				}
+			}
+			c.Check(form, "R20.3", dr.String(), "form-only-for-form-content", cl.Pos(), "the URL/form decoder is used only under Content-Type == application/x-www-form-urlencoded (any other request must carry the level in a JSON body): guards %v", atoms)
+		}
 	}
 
 	// ---------------- R20.4 ----------------
